@@ -39,6 +39,11 @@ def queue_spec(seed):
             v["schedule"] = "never"
             v["home_base"] = f"hb{j}"
             bases.append({"id": f"hb{j}", "lat": round(LAT0 + 0.01 + 0.001 * j, 6), "lon": LON0, "station": None, "stalls": 1})
+    fleets = None
+    if seed % 5 == 1:
+        # a fleets file in which every other vehicle belongs to a fleet, the station to none (open to all): members and
+        # non-members wait in the same queue
+        fleets = {"fa": {"vehicles": [v["id"] for v in vehicles[::2]], "stations": [], "bases": []}}
     return {
         "name": f"queue{seed}",
         "seed": seed,
@@ -51,7 +56,7 @@ def queue_spec(seed):
         "prices": None,
         "rate": None,
         "schedules": schedules,
-        "fleets": None,
+        "fleets": fleets,
         # a small battery so that sessions end (and plugs are granted) often; it still needs many steps to fill
         "mechatronics": {
             "tiny": {
